@@ -69,6 +69,9 @@ func init() {
 		e.assume(implies(srt, and(
 			implies(app("<", r, ln), app(">=", app("so", sel(c, app("+", off, r))), app("so", x))),
 			fmt.Sprintf("(forall ((%s Int)) (! (=> (and (<= 0 %s) (< %s %s)) (< (so (select %s (+ %s %s))) (so %s))) :pattern ((select %s (+ %s %s)))))", i, i, i, r, c, off, i, x, c, off, i))))
+		// consequence (lemma searchHit, proved in /verif/selftest/lemmas): on sorted input, if x occurs it is found
+		lo, hi := off, app("+", off, ln)
+		e.assume(implies(and(srt, app(">=", sel(app("bagS", c, lo, hi), x), "1")), and(app("<", r, ln), eq(sel(c, app("+", off, r)), x))))
 		return Val{T: r}
 	}
 	externWrites["sort.SearchStrings"] = noWrites
